@@ -24,7 +24,7 @@ func (ex *Exec) setGhost(st *State, name, term string) {
 	key := "X|" + name
 	srt := serGhostSort(name)
 	ex.registerKey(key, srt)
-	st.H[key] = ex.name("g", term, srt)
+	ex.setH(st, key, ex.name("g", term, srt))
 }
 
 // fieldOf loads field `name` (possibly promoted through embedded structs) of the struct pointed to by p.
@@ -97,7 +97,7 @@ func init() {
 					srt := serGhostSort(ghost)
 					ex.registerKey(key, srt)
 					prev := ex.heapGet(st, key, srt)
-					st.H[key] = ex.name("g", ite(is, v.L[0], prev), srt)
+					ex.setH(st, key, ex.name("g", ite(is, v.L[0], prev), srt))
 				}
 				recAddr := func(ghost, field string) {
 					v, ok := ex.fieldOf(st, p, field)
@@ -110,7 +110,7 @@ func init() {
 						key := "X|" + ghost + "." + comp
 						ex.registerKey(key, sInt)
 						prev := ex.heapGet(st, key, sInt)
-						st.H[key] = ex.name("g", ite(is, ite(aok, a.L[j], "0"), prev), sInt)
+						ex.setH(st, key, ex.name("g", ite(is, ite(aok, a.L[j], "0"), prev), sInt))
 					}
 				}
 				switch lt {
